@@ -145,6 +145,9 @@ func C02(r *ev.Run) {
 	//    callers on 8 workers. Every call must return, with exactly the errors of its own cascade.
 	cascadeHammer(r, 16, pick(tier, 1500, 15000), 8)
 
+	// 4. the ECAL form of the call: sinks, addEventAndWait, the returned list judged against the reference evaluation
+	c02EcalPhase(r, rng, pick(tier, 150, 1500))
+
 	// 2. real processor runs validated against the property-level specification
 	runCascades(r, rng, map[string]bool{"waitret": true, "final": true, "finished": true, "handler": true,
 		"child": true, "activate": true, "skipped": true, "root": true}, "C02")
